@@ -459,6 +459,7 @@ static int g_dispatch_initialized = 0;
  * use re-initialises it from the (possibly capped) CPU info. */
 void carquet_verif_reset_dispatch(void) {
     g_dispatch_initialized = 0;
+    memset(&g_dispatch, 0, sizeof(g_dispatch));  /* really cold, not just flagged cold */
 }
 #endif /* CARQUET_VERIF */
 
